@@ -241,6 +241,21 @@ CHECKS['C12'] = dict(
     note=COMMON_NOTE + 'dask reduction order / float rounding not modelled (integer tokens; std compared with relative tolerance 1e-9).',
     ref='§5 C12')
 
+CHECKS['C17'] = dict(
+    technique='Lean 4 theorems over a lines-of-text model (join/split inverse, table layout) and a file-system state model + differential correspondence with csv-module parsing',
+    text=('Theorems (Usid/Properties/C17.lean): splitting a joined line recovers its cells for every list of comma-free '
+          'cells; for EVERY well-formed table (any P, Q, N, M >= 1) the exported lines parse back to exactly the expected '
+          'table - per spectroscopic dimension P-1 empty cells, its descriptor and its value for every column; the '
+          'position descriptors and dashes; per position its value along every position dimension followed by the data '
+          'of that row; an existing output is refused unless forced and nothing changes; oversized datasets are skipped '
+          'unless forced; after a normal return the output exists, the (fresh) scratch file does not and every other '
+          'file is untouched; a kernel-checked counterexample shows why a FIXED scratch name breaks this (the repaired '
+          'defect D16). Correspondence: real to_csv in a fresh working directory, default/explicit/relative paths, '
+          'pre-existing outputs, a user temp.csv, force; file parsed with the csv module and compared cell by cell with '
+          'the model\'s lines; directory listings before/after.'),
+    note=COMMON_NOTE + 'numeric formatting is numpy runtime behaviour: numeric cells compared after parsing; descriptors containing commas are outside the domain.',
+    ref='§5 C17')
+
 REASON_PENDING = 'check not built yet in this round (planned: Lean model + theorems + correspondence, see DESIGN.md §5)'
 
 
